@@ -157,6 +157,18 @@ Proof.
   rewrite seq_nth by exact H. reflexivity.
 Qed.
 
+Lemma nth_firstn_lt : forall A (l : list A) k i d, i < k -> nth i (firstn k l) d = nth i l d.
+Proof.
+  induction l as [|x l IH]; intros k i d H; [destruct k; destruct i; reflexivity|].
+  destruct k as [|k]; [lia|]. destruct i as [|i]; [reflexivity|]. simpl. apply IH. lia.
+Qed.
+
+Lemma nth_skipn : forall A (l : list A) k i d, nth i (skipn k l) d = nth (k + i) l d.
+Proof.
+  induction l as [|x l IH]; intros k i d; [destruct k; destruct i; reflexivity|].
+  destruct k as [|k]; [reflexivity|]. simpl. apply IH.
+Qed.
+
 Definition memS (S : list nat) (i : nat) : bool := existsb (Nat.eqb i) S.
 
 Lemma erase_length : forall S l, length (erase S l) = length l.
@@ -276,7 +288,8 @@ Proof.
     rewrite Hss. destruct (Nat.eqb len 0) eqn:E0; [apply Nat.eqb_eq in E0; lia|].
     assert (Hall : forallb (fun s => Nat.eqb (length s) len || (is_missing s && true)) sh = true).
     { apply forallb_forall. intros s Hs. apply (In_nth _ _ []) in Hs. destruct Hs as [i [Hi0 <-]].
-      assert (Hi : i < n + m) by (rewrite <- Hshl; exact Hi0). rewrite (Hnth i Hi). destruct (memS S i); [reflexivity|].
+      assert (Hi : i < n + m) by (rewrite <- Hshl; exact Hi0). rewrite (Hnth i Hi).
+      destruct (memS S i); [simpl; apply orb_true_r|].
       rewrite (HlenE i Hi), Nat.eqb_refl. reflexivity. }
     rewrite Hall. reflexivity. }
   rewrite Hcs. rewrite HP.
